@@ -109,6 +109,16 @@ def stableBorrowInterest (amount : Int) (rate : Dec) (now prev : Int) : Out :=
   let secs := elapsed now prev
   if secs < 0 then .err else .ok [stableInterest amount rate secs]
 
+/-! ## re-balancing of a stable-rate borrow (iter.go:266-288 `ReBalanceStableRates`, called by the liquidation modules) -/
+
+def perc1 : Dec := 200000000000000000   -- types.Perc1 = 0.2
+def perc2 : Dec := 900000000000000000   -- types.Perc2 = 0.9
+
+/-- the position's stable rate `s` snaps to the pool's current stable rate `st` when it is at least 20 points above it, at least
+20 points below it, or the utilisation `u` is at least 90 %; otherwise it stays -/
+def rebalance (s st u : Dec) : Dec :=
+  if st + perc1 ≤ s then st else if s + perc1 ≤ st ∨ perc2 ≤ u then st else s
+
 /- the lend-reward tracker (iter.go:33-42) applies the same "≥ 1 ⇒ pay whole units, carry fraction" rule as
    `Comdex.Accrual.trackerStep` (Model/Accrual.lean); it is modelled there once. -/
 
